@@ -32,7 +32,14 @@ theorem softmaxP_eq {n : ℕ} (s : Fin n → ℝ) (i : Fin n) (hn : 0 < n) :
 
 /-- **exponential-mechanism probability** (base class primitive, `mechanism.py`): with qualities
 `q`, positive base measure `b` (entered as `log b`), `ε > 0`, sensitivity `Δ > 0`, candidate `i` is
-drawn with probability `bᵢ·exp(ε qᵢ/(2Δ)) / Σⱼ bⱼ·exp(ε qⱼ/(2Δ))` — the shift by `max q` cancels -/
+drawn with probability `bᵢ·exp(ε qᵢ/(2Δ)) / Σⱼ bⱼ·exp(ε qⱼ/(2Δ))` — the shift by `max q` cancels.
+
+Coverage (audit 2, `B_c20_base`): this is the DICT path of `Mechanism.exponential_mechanism` (`mechanism.py:65-71`), where the
+source takes `np.log` of the base measure before adding it to the scores.  On the ARRAY path (`qualities` not a dict) the source
+adds `base_measure` AS GIVEN, i.e. it is read as a LOG-measure there: the probability is `∝ exp(bᵢ)·exp(ε qᵢ/(2Δ))` (this theorem
+with `b := exp ∘ b`).  The regenerated form of the array path is `C05S.gen_mech_em_array_base`; no shipped mechanism calls the
+array path with a base measure.  `Mechanism.permute_and_flip` (and `generalized_exponential_mechanism`) are not translated and not
+covered by any theorem. -/
 theorem em_probability {n : ℕ} (q b : Fin n → ℝ) (qmax eps Δ : ℝ) (hn : 0 < n) (hb : ∀ i, 0 < b i)
     (hΔ : 0 < Δ) (i : Fin n) :
     softmaxP (fun j => mech_em_score_base eps Δ (mech_em_shift (q j) qmax) (Real.log (b j))) i
